@@ -23,6 +23,7 @@ Protocol lines of area `tsprops` (self-contained: programs + interleaving on one
              | nested <req> | construct <app>
     outcome := ret <text> | retb <text> | empty | raise <code> <line> <body> <env> | error <code> <line> <text>
              | crash <line> <repr of the exception> | failjson <errors_map key> | failform <errors_map key>
+             | failmultipart <errors_map key>
 
 `run` answers, per thread, the observations in order (`<app>:<hex of the observation>`): the values
 handlers read (`r:`) and the responses produced (`w:`).  `labels` answers the labels of the visible
@@ -87,6 +88,7 @@ mutual
     | "crash" :: l :: e :: rest => some ([], .crash (str l) (str e), rest)
     | "failjson" :: e :: rest => some ([], .failJson (str e), rest)
     | "failform" :: e :: rest => some ([], .failForm (str e), rest)
+    | "failmultipart" :: e :: rest => some ([], .failMultipart (str e), rest)
     | toks => do
       let (op, rest) ← parseOp toks
       let (ops, out, rest) ← parseOps rest
